@@ -54,6 +54,21 @@ def lib_decode(data: bytes) -> Dict[str, Any]:
             sys.setprofile(None)
             signal.setitimer(signal.ITIMER_REAL, 0)
             signal.signal(signal.SIGALRM, old_handler)
+        max_name = _project(inc, answers, res)
+    except BaseException as ex:  # noqa: BLE001 - RecursionError and friends are exactly what is being looked for
+        sys.setprofile(None)
+        res['exc'] = 'DoesNotTerminate' if isinstance(ex, WallClock) else type(ex).__name__
+        if isinstance(ex, WallClock):
+            count[0] = 1000000000          # beyond every budget
+    res['events'] = count[0]
+    res['maxName'] = max_name
+    return res
+
+
+def _project(inc: Any, answers: Any, res: Dict[str, Any]) -> int:
+    from zeroconf import DNSAddress, DNSHinfo, DNSNsec, DNSPointer, DNSService, DNSText
+    max_name = 0
+    if True:
         res['valid'] = bool(inc.valid)
         if inc.valid:
             for q in inc.questions:
@@ -81,14 +96,32 @@ def lib_decode(data: bytes) -> Dict[str, Any]:
                     rd = ['u']
                 res['rrs'].append([cps(r.name), r.type, cls, [ttl >> 16, ttl & 0xFFFF], rd])
                 max_name = max(max_name, len(r.name))
-    except BaseException as ex:  # noqa: BLE001 - RecursionError and friends are exactly what is being looked for
-        sys.setprofile(None)
-        res['exc'] = 'DoesNotTerminate' if isinstance(ex, WallClock) else type(ex).__name__
-        if isinstance(ex, WallClock):
-            count[0] = 1000000000          # beyond every budget
-    res['events'] = count[0]
-    res['maxName'] = max_name
-    return res
+    return max_name
+
+
+def interleaved_cases(group: List[Tuple[str, bytes]]) -> List[dict]:
+    """Several message objects alive at once, as in the listener's list of deferred truncated queries: all of them are constructed
+    first (questions are read then), their records are read afterwards.  What each one decodes to must not depend on the others."""
+    from zeroconf._protocol.incoming import DNSIncoming
+    objs = []
+    for cid, data in group:
+        res: Dict[str, Any] = {'exc': '', 'valid': False, 'qs': [], 'rrs': []}
+        try:
+            objs.append((cid, data, DNSIncoming(data), res))
+        except BaseException as ex:  # noqa: BLE001
+            res['exc'] = type(ex).__name__
+            objs.append((cid, data, None, res))
+    out = []
+    for cid, data, inc, res in objs:
+        mx = 0
+        if inc is not None:
+            try:
+                mx = _project(inc, inc.answers(), res)
+            except BaseException as ex:  # noqa: BLE001
+                res['exc'] = type(ex).__name__
+        out.append({'id': cid, 'b': list(data), 'lib': {'exc': res['exc'], 'valid': res['valid'], 'qs': res['qs'], 'rrs': res['rrs']},
+                    'events': 0, 'maxName': mx, 'faith': len(data) <= 600 and faithful_domain(data)})
+    return out
 
 
 def faithful_domain(data: bytes) -> bool:
@@ -365,6 +398,13 @@ def run(ctx: Ctx) -> None:
     ctx.log('%d byte strings (%d enumerated over the adversarial alphabet)' % (len(jobs), n_small))
     with mp.get_context('fork').Pool(16 if ctx.thorough else 8) as pool:
         cases = pool.map(make_case, jobs, chunksize=64)
+    # the valid messages once more, three message objects alive at a time (constructed first, read afterwards)
+    pool = [(k, d) for k, d in enumerate(uniq) if d in set(valid)]
+    rng.shuffle(pool)
+    inter = 0
+    for g in range(0, len(pool) - 2, 3):
+        cases += interleaved_cases([('i%d' % k, d) for k, d in pool[g:g + 3]])
+        inter += 3
     # TLC batches: bounded by total octets (JSON-deserialised sequences index slowly)
     batches: List[List[dict]] = [[]]
     w = 0
@@ -416,7 +456,7 @@ def run(ctx: Ctx) -> None:
                    'process (alone it does not)' % (bad['hex'][:60], bad['exc'], bad['n']), {'data_hex': bad['hex'], 'soak': True, 'position': bad['n']})
     cov = ctx.coverage
     cov.update({
-        'soak_pass': {'datagrams_in_one_process': sres['n'], 'raised': len(sres['bad'])},
+        'soak_pass': {'datagrams_in_one_process': sres['n'], 'raised': len(sres['bad'])}, 'interleaved_message_objects': inter,
         'evaluations': len(cases), 'distinct_nontrivial': strict_ok,
         'rule': 'every string header++body with body <= %d octets over {00,01,0C,0D,40,C0,FF,61} and counts (1,0),(0,1),(1,1) '
                 '(exhaustive); valid messages and %d mutants each (bit flips, truncation, insertion, count / length corruption, '
